@@ -1121,7 +1121,6 @@ func TestC09(t *testing.T) {
 	_ = d.conn.Close()
 	ts.Close()
 
-
 	c.Write(t, true, fmt.Sprintf("alphabet of %d concrete request elements (15 kinds of DESIGN C09 with their variants); every single element x 9 ids "+
 		"{0,1,-1,1.5,2^53,1e2,\"\",\"a\",\"1\"} x 4 whitespace layouts; 13 degenerate bodies; every proper prefix of 3 valid bodies; 8 valid bodies followed by extra bytes; "+
 		"every batch of length 1..%d over the alphabet x 4 whitespace layouts (length 1: every id; length 2: 9 id rotations; length 3: one rotation chosen by the letter indices so every letter "+
